@@ -83,6 +83,7 @@ Section Lift.
   Variable Q : boundset -> Prop.
   Definition optQ (o : option boundset) : Prop := match o with Some c => Q c | None => True end.
   Hypothesis HG : forall s p r, partial_version s = Some (p, r) -> G p.
+  Hypothesis Gstar : G (mkP None None None [] []).      (* the empty alternative is the partial version [*] *)
   Hypothesis Hprim : forall op p, G p -> optQ (primitive_tbl op p).
   Hypothesis Hpart : forall p, G p -> optQ (partial_tbl p).
   Hypothesis Htilde : forall gt p, G p -> optQ (tilde_tbl gt p).
@@ -155,7 +156,9 @@ Section Lift.
   Qed.
   Lemma lift_range_p s bs r : range_p s = Some (bs, r) -> Forall Q bs.
   Proof.
-    unfold range_p. pose proof (lift_hyphen (space0 s)) as W. destruct (hyphen_p (space0 s)) as [[b r0]|]; [|apply lift_simples_p].
+    unfold range_p. destruct (at_empty_alt (space0 s)).
+    { intros [= <- _]. pose proof (Hpart _ Gstar) as W. constructor; [exact W|constructor]. }
+    pose proof (lift_hyphen (space0 s)) as W. destruct (hyphen_p (space0 s)) as [[b r0]|]; [|apply lift_simples_p].
     destruct (at_alt_end r0); [|apply lift_simples_p]. intros [= <- _]. cbn in W.
     destruct b; cbn; [constructor; [exact W|constructor]|constructor].
   Qed.
@@ -244,6 +247,7 @@ Theorem r_parse_canon s R : r_parse s = ROk R -> range_all Pc R.
 Proof.
   apply (r_parse_lift partial_canon (bs_all Pc)).
   - exact partial_version_canon.
+  - split; constructor.
   - exact primitive_tbl_canon.
   - exact partial_tbl_canon.
   - exact tilde_tbl_canon.
